@@ -70,7 +70,13 @@ def check(run, driver):
                     if info in ("geometric_knn", "knn") and datakind == "continuous" and (info == "geometric_knn" or rep % 2 == 0):
                         # samples anywhere relative to the origin: exact power-of-two offsets of 2^6 .. 2^26 spacings per column
                         base = base + 2.0 ** rng.integers(6, 27, size=base.shape[1]) * rng.choice([-1.0, 1.0], size=base.shape[1])
+                    if info == "knn" and datakind == "continuous" and rep % 3 == 2:
+                        # data recorded in very small units (spacings 1e-14 .. 1e-11): the neighbour estimator has no scale of its own
+                        base = (base - base.mean(axis=0)) * float(10 ** rng.uniform(-13, -10))
                     X, Y, Z = base[:, :kx], base[:, kx:kx + ky], (base[:, kx + ky:] if cond else None)
+                    if rep % 2 == 0 and datakind == "continuous":
+                        # the same blocks as column-major (Fortran-ordered) float64 arrays -- what `np.array([z1, z2]).T`, `data.T` or `DataFrame.values` hand over
+                        X, Y, Z = np.asfortranarray(X), np.asfortranarray(Y), (None if Z is None else np.asfortranarray(Z))
                     # arguments of different dtypes (single next to double precision; integer counts next to continuous measurements):
                     # the sample is the same whichever argument position a block is passed in
                     # (single precision only for the estimators that compute in double whatever they are given; the geometric and KDE
@@ -132,6 +138,30 @@ def check(run, driver):
                                 vz = f(X, Y, Z[:, list(cp)])
                                 if not rel_close(v, vz):
                                     run.prop_fail("estimate depends on the order of the conditioning columns", case, sig("z_col_perm"), {"base": v, "reordered": vz, "column_order": cp}); break
+    # ---- settings history: the same sample evaluated under a SEQUENCE of settings in one process; each value must equal the value of the
+    #      jointly row-permuted sample (fresh arrays) under the same settings -- a memo keyed on the data alone answers from the wrong setting
+    seqs = {"knn": [dict(metric="euclidean", k=1), dict(metric="euclidean", k=3), dict(metric="chebyshev", k=3), dict(metric="euclidean", k=2)],
+            "geometric_knn": [dict(metric="euclidean", k=1), dict(metric="euclidean", k=3), dict(metric="euclidean", k=2), dict(metric="euclidean", k=3)],
+            "kde": [dict(bandwidth="silverman"), dict(bandwidth=0.5), dict(bandwidth="scott"), dict(bandwidth=0.9)]}
+    for it in range(12 if thorough else 4):
+        N = int(rng.integers(14, 26)); kz = int(rng.integers(1, 3))
+        W = rng.standard_normal((N, 2 + kz)) @ (rng.standard_normal((2 + kz, 2 + kz)) * 0.4 + np.eye(2 + kz))
+        X, Y, Z = W[:, :1].copy(), W[:, 1:2].copy(), W[:, 2:].copy()
+        for info in ("knn", "geometric_knn", "kde"):
+            for cond in (True, False):
+                zz = Z if cond else None
+                path = "Z given" if cond else "Z is None"
+                if info == "geometric_knn" and not cond:
+                    continue        # (the geometric Z=None path drops its settings: known finding of C09, not a history effect)
+                for st in seqs[info]:
+                    f = lambda a, b, c: float(C.conditional_mutual_information(a, b, c, method=info, **st)) if it % 2 else float(direct[(info, cond)](a, b, c, {"metric": "euclidean", "k": 1, "bandwidth": "silverman", **st}))
+                    v = f(X, Y, zz)
+                    pm = rng.permutation(N)
+                    vp = f(X[pm].copy(), Y[pm].copy(), None if zz is None else zz[pm].copy())
+                    run.case("settings-history", [info, cond, str(st), N, float(W[0, 0])], True)
+                    if not rel_close(v, vp):
+                        run.prop_fail("estimate of a sample under given settings depends on the settings used on the same sample earlier in the process (differs from the value of the jointly row-permuted sample)",
+                                      {"estimator": info, "path": path, "N": N, **st, "X": X, "Y": Y, "Z": zz}, {"estimator": info, "path": path, "transformation": "settings_history"}, {"in_sequence": v, "row_permuted_fresh": vp})
     # ---- dedicated stream: geometric estimator on samples at every distance from the origin (offset 2^8 .. 2^17 spacings, one exponent per
     #      case), neighbourhoods thinner than the space (k < d of the stacked blocks): X <-> Y, column order of Z, row order
     for it in range(30 if thorough else 10):
